@@ -22,7 +22,9 @@ def run_inprocess(argv, stdin_lines):
     status, exc = 0, None
     try:
         try:
-            mod.main()
+            rv = mod.main()
+            if rv is not None and rv != 0:
+                status = rv          # the installed console script does sys.exit(main()): a return value IS the exit status
         except SystemExit as e:
             status = e.code if e.code is not None else 0
         except BaseException as e:  # noqa
@@ -33,12 +35,16 @@ def run_inprocess(argv, stdin_lines):
     return {"status": status, "exc": exc, "out": out.getvalue(), "err": err.getvalue(), "consumed": fake.consumed}
 
 
-def run_subprocess(argv, stdin_lines, python=None, timeout=60):
+def run_subprocess(argv, stdin_lines, python=None, timeout=60, console_script=False):
     env = dict(os.environ)
     env["PYTHONPATH"] = runner.REPO
     env["PYTHONIOENCODING"] = "utf-8"
     env.pop("PYTHONHASHSEED", None)
-    p = subprocess.run([python or sys.executable, "-m", "cvss.cvss_calculator"] + list(argv),
+    launcher = ["-m", "cvss.cvss_calculator"]
+    if console_script:
+        # what setup.py's console_scripts entry point generates
+        launcher = ["-c", "import sys; from cvss.cvss_calculator import main; sys.argv[0] = 'cvss_calculator'; sys.exit(main())"]
+    p = subprocess.run([python or sys.executable] + launcher + list(argv),
                        input=("".join(l + "\n" for l in (stdin_lines or []))).encode("utf-8"),
                        stdout=subprocess.PIPE, stderr=subprocess.PIPE, env=env, timeout=timeout, cwd="/")
     return {"status": p.returncode, "exc": None, "out": p.stdout.decode("utf-8", "replace"),
